@@ -41,6 +41,8 @@ def errJ : LErr → Json
   | .valueError => .arr #[.str "ValueError"]
   | .indexError => .arr #[.str "IndexError"]
   | .keyError k => .arr #[.str "KeyError", .str k]
+  | .typeError => .arr #[.str "TypeError"]
+  | .notImplementedError => .arr #[.str "NotImplementedError"]
 
 def intJ (i : Int) : Json := .str (toString i)
 
@@ -71,11 +73,22 @@ def resultJ : Except LErr LModel → Json
 def natMap (lm : List Int) : Option (List Nat) :=
   lm.mapM fun i => if 0 ≤ i then some i.toNat else none
 
+/-- a raw coefficient: `{"int": n}`, `{"float": "n/d"}` or `"derived"` -/
+def jCoef (j : Json) : Except String Coef :=
+  match j with
+  | .str "derived" => .ok .derived
+  | _ =>
+    match j.getObjVal? "int" with
+    | .ok v => do pure (.int (← jInt v))
+    | .error _ => do pure (.float (← jRat (← field j "float")))
+
 def handle (j : Json) : Except String Json := do
   let lv ← jList (jPair jStr jNat) (← field j "lv")
   let maps ← jList (jPair jStr (jList jInt)) (← field j "maps")
   let init ← jList (jPair jStr (jList jNat)) (fieldD j "init" (.arr #[]))
   let base ← jBase (← field j "base")
+  -- raw coefficients of the reactions whose stoichiometry is not all Python ints
+  let raw ← jList (jPair jStr (jList (jPair jStr jCoef))) (fieldD j "raw" (.arr #[]))
   let states ← jList (jAssoc jRat) (fieldD j "states" (.arr #[]))
   let distinct := Json.arr (base.rxns.filterMap fun r =>
     match maps.lookup r.name with
@@ -109,17 +122,20 @@ def handle (j : Json) : Except String Json := do
   -- the natural-number entry point (the one the theorems are stated for) on maps without negative
   -- indices must give what the integer entry point gives
   let nat : String :=
-    match maps.mapM fun km => (natMap km.2).map fun l => (km.1, l) with
+    if !raw.isEmpty then "na"
+    else if (resultJ (buildModelI base lv maps init)).compress != (resultJ (buildModelP base lv maps raw init)).compress
+    then "differs"
+    else match maps.mapM fun km => (natMap km.2).map fun l => (km.1, l) with
     | none => "na"
     | some nmaps =>
-      if (resultJ (buildModel base lv nmaps init)).compress == (resultJ (buildModelI base lv maps init)).compress
+      if (resultJ (buildModel base lv nmaps init)).compress == (resultJ (buildModelP base lv maps raw init)).compress
       then "same" else "differs"
   -- net coefficient of every base variable in every base reaction (`netOf`, the steady-state premise)
   let net := Json.arr (base.rxns.flatMap fun r => base.vars.map fun kv =>
     Json.arr #[.str r.name, .str kv.1, intJ (netOf base r.name kv.1)]).toArray
   let common := [("distinct", distinct), ("dims", dims), ("net", net), ("queries", Json.arr qres.toArray), ("isos", isosJ),
     ("nat", Json.str nat)]
-  match buildModelI base lv maps init with
+  match buildModelP base lv maps raw init with
   | .error e => pure (Json.mkObj ([("err", errJ e)] ++ common))
   | .ok m =>
     let sts ← states.mapM (stateOf m)
